@@ -8,8 +8,8 @@
 
     C06_blockwise, C06_partitions(_unknown/_count), C06_head, C06_tail, C06_fusedio(_buckets/_counterexample),
     C06_repartition_fewer / _divisions (from C13), C06_concat, C06_merge_divisions, C06_fromarray, C06_frompandas
-    C06_len_pushdown_table, C06_len_rowcount_*, C06_len_concat, C06_size, C06_len_frompandas(_counterexample),
-    C06_len_parquet_counterexample, C06_len_elemwise_partial(_counterexample)
+    C06_len_pushdown_table, C06_len_rowcount_*, C06_len_concat, C06_size(_counterexample), C06_len_frompandas,
+    C06_len_parquet (full since D62/D63), C06_len_elemwise_partial(_counterexample)
 -/
 import DxModel.Lemmas.Divisions
 import DxModel.Lemmas.FromArray
@@ -259,30 +259,33 @@ theorem C06_size (isFrame : Bool) (ncols rows : Nat) (h : 1 ≤ ncols) (hs : isF
 /-- (finding) a frame WITHOUT columns: `df[[]].size` is answered by `Len` (6 for six rows), pandas says 0 -/
 theorem C06_size_counterexample : (sizeRule true 0).1 * 6 = 6 ∧ 0 * 6 = 0 := by decide
 
-/-- **FromPandas._get_lengths**: unfiltered — the partition sizes; filtered by a strictly ascending
-    `_partitions` — the sizes of the selected partitions, in order. -/
-theorem C06_len_frompandas (locs : List Nat) (P : List Nat) (hs : strictAsc P = true)
-    (hP : ∀ p ∈ P, p < locs.length - 1) :
-    fpLengths locs none = fpTrueLengths locs none ∧ fpLengths locs (some P) = fpTrueLengths locs (some P) := by
-  refine ⟨?_, ?_⟩
-  · have : (List.range (locs.length - 1)).filter (fun _ => true) = List.range (locs.length - 1) :=
-      List.filter_eq_self.mpr (fun _ _ => rfl)
-    simp [fpLengths, fpTrueLengths, this]
+/-- **FromPandas._get_lengths** (full since D62): unfiltered — the partition sizes; filtered by ANY valid
+    `_partitions` (any order, repeats) — the sizes of the selected partitions, in the order of the selection. -/
+theorem C06_len_frompandas (locs : List Nat) (P : List Nat) (hP : ∀ p ∈ P, p < locs.length - 1) :
+    fpLengths locs none = some (fpTrueLengths locs none) ∧
+    fpLengths locs (some P) = some (fpTrueLengths locs (some P)) := by
+  refine ⟨by simp [fpLengths, fpTrueLengths, allLengths], ?_⟩
   simp only [fpLengths, fpTrueLengths]
-  rw [filter_range_strictAsc _ P (strictAsc_pairwise P hs) hP]
+  rw [pick_valid (allLengths locs) P (by simpa [allLengths] using hP)]
+  congr 1
+  apply List.map_congr_left
+  intro p hp
+  have := hP p hp
+  simp [allLengths, this]
 
-/-- (finding) `… if not self._filtered or i in self._partitions` keeps ORIGINAL order and drops repeats:
-    `_partitions = [0, 0]` reports one length (`len()` = 4 instead of 8), `[2, 0]` reports them swapped. -/
-theorem C06_len_frompandas_counterexample :
-    fpLengths [0, 4, 7, 10] (some [0, 0]) = [4] ∧ fpTrueLengths [0, 4, 7, 10] (some [0, 0]) = [4, 4] ∧
-    fpLengths [0, 4, 7, 10] (some [2, 0]) = [4, 3] ∧ fpTrueLengths [0, 4, 7, 10] (some [2, 0]) = [3, 4] := by decide
+example : fpLengths [0, 4, 7, 10] (some [0, 0]) = some [4, 4] ∧ fpLengths [0, 4, 7, 10] (some [2, 0]) = some [3, 4] ∧
+    fpLengths [0, 4, 7, 10] (some [3]) = none := by decide
 
-/-- (finding) parquet: the fsspec reader filters its statistics by POSITION twice (`[1, 2]` of six files keeps
-    one length), the arrow reader ignores `_partitions`. -/
-theorem C06_len_parquet_counterexample :
-    pqLengths [3, 4, 3, 3, 4, 3] (some [1, 2]) = [3] ∧ trueLengths [3, 4, 3, 3, 4, 3] (some [1, 2]) = [4, 3] ∧
-    pqLengthsArrow [3, 4, 3, 3, 4, 3] (some [1, 2]) = [3, 4, 3, 3, 4, 3] ∧
-    pqLengths [3, 4, 3, 3, 4, 3] none = trueLengths [3, 4, 3, 3, 4, 3] none := by decide
+/-- **parquet `_get_lengths`** (full since D63), both readers: for ANY valid `_partitions` the lengths of the
+    selected partitions in the order of the selection (the statistics are taken as given). -/
+theorem C06_len_parquet (stats : List Nat) (P : List Nat) (hP : ∀ p ∈ P, p < stats.length) :
+    pqLengths stats (some P) = some (trueLengths stats (some P)) ∧
+    pqLengthsArrow stats (some P) = some (trueLengths stats (some P)) ∧
+    pqLengths stats none = some stats ∧ pqLengthsArrow stats none = some stats :=
+  ⟨pqLengths_valid stats P hP, by simp [pqLengthsArrow, trueLengths, pick_valid stats P hP], rfl, rfl⟩
+
+example : pqLengths [3, 4, 3, 3, 4, 3] (some [1, 2]) = some [4, 3] ∧ pqLengths [3, 4, 3, 3, 4, 3] (some [5, 0, 0]) = some [3, 3, 3] ∧
+    pqLengthsArrow [3, 4, 3, 3, 4, 3] (some [2, 1]) = some [3, 4] := by decide
 
 /-
   FULL STATEMENT (false for the code as it is): `Len(op(args)) = Len(child)` for the child
